@@ -530,6 +530,8 @@ func TransformJSONProtoToDSL(model *openfgav1.AuthorizationModel, opts ...Transf
 	}
 
 	if isModularModel {
+		// sort a copy so that the caller's model is left untouched
+		typeDefs = slices.Clone(typeDefs)
 		slices.SortStableFunc(typeDefs, func(a, b *openfgav1.TypeDefinition) int {
 			return sortByModule(
 				a.GetType(), b.GetType(),
